@@ -1469,30 +1469,45 @@ def _search(ctx):
         if not calls:
             o.refute(f, loop, 'capacity', "the search never asks the resource for its capacity")
             return
-        env_calls = {}
+        xcalls = []
         for n in calls:
             xc = ex.expand(n)
             if not _name(xc.func.value, f.params[0]) or not xc.args or xc.keywords and any(k.arg == 'date' for k in xc.keywords):
                 o.undecided(f, n, n, "capacity query in an unrecognised shape")
                 return
-            a = xc.args[0]
-            off = None
-            if _name(a, D):
-                off = 0
-            elif isinstance(a, ast.BinOp) and isinstance(a.op, (ast.Add, ast.Sub)) and _name(a.left, D):
-                st = _day_step(a.right, 'direction')
-                if st and st[0] == 'const':
-                    off = st[1] if isinstance(a.op, ast.Add) else -st[1]
-            if off is None:
-                o.undecided(f, n, n, f"capacity is queried for `{src(a)[:60]}`")
-                return
-            env_calls.setdefault(off, []).append(xc)
+            xcalls.append((n, xc))
+
+        def offsets(direction):
+            """{day offset from the current date: [expanded capacity queries]} for one direction; None after a verdict"""
+            out = {}
+            for n, xc in xcalls:
+                try:
+                    a = Ev([(_e('direction'), direction, 'exact')]).select(xc.args[0])
+                except (U.Unknown, U.WouldRaise) as u:
+                    o.undecided(f, n, n, f"capacity query argument: {u.why}")
+                    return None
+                off = None
+                if _name(a, D):
+                    off = 0
+                elif isinstance(a, ast.BinOp) and isinstance(a.op, (ast.Add, ast.Sub)) and _name(a.left, D):
+                    st = _day_step(a.right, 'direction')
+                    if st:
+                        k = st[1] * (direction if st[0] == 'dir' else 1)
+                        off = k if isinstance(a.op, ast.Add) else -k
+                if off is None:
+                    o.undecided(f, n, n, f"capacity is queried for `{src(a)[:60]}`")
+                    return None
+                out.setdefault(off, []).append(xc)
+            return out
         # ---- (b) one iteration, over direction x capacities
-        offs = sorted(env_calls)
         need = {1: 0, -1: -1}
         problems = False
         seen_ok = set()
         for direction in (1, -1):
+            env_calls = offsets(direction)
+            if env_calls is None:
+                return
+            offs = sorted(env_calls)
             for caps in itertools.product((0, 1), repeat=len(offs)):
                 env = [(_e('direction'), direction, 'exact')]
                 for off, cap in zip(offs, caps):
